@@ -86,6 +86,14 @@ thread_local! {
     /// Harness failures (self-checks, or plain panics raised from harness
     /// source files) observed on this thread. Never a verdict: exit 2.
     static HARNESS_FAILS: std::cell::RefCell<Vec<String>> = const { std::cell::RefCell::new(Vec::new()) };
+    /// Set while a scenario run executes on this thread.
+    static IN_RUN: std::cell::Cell<bool> = const { std::cell::Cell::new(false) };
+}
+
+/// Marks the begin / end of a scenario run on this thread (panics outside a
+/// run are printed by the hook, they are plain bugs of the driver).
+pub fn set_in_run(v: bool) {
+    IN_RUN.with(|f| f.set(v));
 }
 
 /// Returns and clears the panics recorded on this thread that were raised by
@@ -116,6 +124,9 @@ pub fn install_quiet_panic_hook() {
         let file = info.location().map(|l| l.file().to_string()).unwrap_or_default();
         let loc = info.location().map(|l| format!("{}:{}", l.file(), l.line())).unwrap_or_default();
         let in_harness = file.starts_with("src/") || file.starts_with("sim/src/");
+        if !IN_RUN.with(|f| f.get()) {
+            eprintln!("harness failure outside a run: {} at {}", msg, loc);
+        }
         if msg.starts_with(HARNESS_PANIC) || (in_harness && !msg.starts_with(SPIN_PANIC)) {
             HARNESS_FAILS.with(|p| {
                 let mut p = p.borrow_mut();
